@@ -320,3 +320,37 @@ Proof.
   - right. apply negb_false_iff in CP. unfold hash_history_contains_hash_twice in CP. apply Nat.leb_le in CP.
     now rewrite count_hash_map in CP.
 Qed.
+
+(* a withheld fourth step: the exact rule forbids it, unless a hash collision is involved *)
+Theorem withheld_step_exact s pp G b0 i d : RepInv s pp G b0 ->
+  let nb := board (take_action s (Move i d)) in
+  NoCollisionAt s G b0 nb ->
+  In (Move i d) (valid_actions_no_rep s) -> ~ In (Move i d) (valid_actions s) ->
+  step_of pp = 3 /\ trapped pp = false /\
+  (beq nb b0 \/ (2 <= length (filter (fun x => (z_from_piece_board nb (negb (side s)) 0 =? hpos x)%N) G))%nat).
+Proof.
+  intros RI nb [NC1 NC2] OffN NotV.
+  pose proof (hi_play s pp (ri_hash _ _ _ _ RI)) as Inv. pose proof (inv_board s pp Inv) as W. pose proof (inv_phase s pp Inv) as Hph.
+  pose proof (offered_move_pre s pp i d Inv OffN) as [Hi (t & o & k & Hd & Hc & Ht)].
+  pose proof (take_move_WFb (board s) i d t W Hi Hd Ht) as Wn.
+  assert (keep s pp (Move i d) = false) as K.
+  { destruct (keep s pp (Move i d)) eqn:E; [|reflexivity]. exfalso. apply NotV. rewrite (valid_is_filter s pp Inv). apply filter_In. tauto. }
+  unfold keep, rep_active, not_pl in K. apply orb_false_iff in K. destruct K as [K1 K2]. apply negb_false_iff in K1.
+  apply andb_prop in K1. destruct K1 as [S3 T]. apply N.eqb_eq in S3. apply negb_true_iff in T.
+  split; [exact S3|]. split; [exact T|].
+  apply negb_false_iff in K2. unfold is_passing_like_action, current_step, unwrap_play_phase in K2. rewrite Hph in K2.
+  rewrite (hi_hash s pp (ri_hash _ _ _ _ RI)) in K2. rewrite !z_move_piece_spec in K2 by assumption.
+  rewrite (ri_init _ _ _ _ RI), (ri_hist _ _ _ _ RI) in K2.
+  assert (nb = fst (pb_take_move (board s) i d)) as Enb by (unfold nb; cbn [take_action]; rewrite (move_piece_unfold s pp i d Hph); reflexivity).
+  rewrite <- Enb in K2. apply orb_prop in K2. destruct K2 as [K2|K2].
+  - left. apply N.eqb_eq in K2. now apply NC1.
+  - right. unfold hash_history_contains_hash_twice in K2. apply Nat.leb_le in K2. now rewrite count_hash_map in K2.
+Qed.
+
+(* after a capture earlier in the turn nothing is withheld at the fourth step (and rightly so: C05 holds regardless) *)
+Theorem capture_turn_never_withheld s pp i d : PlayInv s pp -> trapped pp = true ->
+  In (Move i d) (valid_actions_no_rep s) -> In (Move i d) (valid_actions s).
+Proof.
+  intros Inv T Off. rewrite (valid_is_filter s pp Inv). apply filter_In. split; [exact Off|].
+  unfold keep, rep_active. rewrite T. cbn [negb]. now rewrite andb_false_r.
+Qed.
